@@ -407,3 +407,36 @@ package commands
 //@     after call encoder.Encoder.Decode returning b, e : decodedOK = e == nil ; tokenStr = bytes(b)
 //@     before call storage.StoresBackend.ListStores args _, _, o : assert decodedOK && o.IDs == storeIDs && o.Name == req.GetName()
 //@     after call storage.StoresBackend.ListStores returning s, t, e : listed = true ; got = s ; listErr = e
+
+// ------------------------------------------------------------------ Read (C14, C10): token plumbing of the paginated tuple read
+// a non-empty token is used only if it decodes and deserializes; the position handed to the backend is the token's; the
+// filter is the request's tuple key, the page size and consistency the request's; the token returned is the backend's
+// next position, serialized and encoded (empty when the backend reports no further page)
+//@ func (*ReadQuery).Execute(q, ctx, req) (res, err)
+//@   property C14 C10
+//@   option nosafety
+//@   option stable req
+//@   ensures @lastPage res != nil && paged && contUlid == "" ==> res.ContinuationToken == "" && res.Tuples == got
+//@   ensures @nextPage res != nil && paged && contUlid != "" ==> serialized && encoded && res.ContinuationToken == encodedTok && res.Tuples == got
+//@   monitor token
+//@     ghost decoded = false
+//@     ghost tokenStr string = ""
+//@     ghost desCalled = false
+//@     ghost desErr error = nil
+//@     ghost desFrom string = ""
+//@     ghost paged = false
+//@     ghost got []*openfgav1.Tuple = got
+//@     ghost contUlid string = ""
+//@     ghost serialized = false
+//@     ghost serTok string = ""
+//@     ghost encoded = false
+//@     ghost encodedTok string = ""
+//@     after call encoder.Encoder.Decode returning b, e : decoded = e == nil ; tokenStr = bytes(b)
+//@     before call encoder.ContinuationTokenSerializer.Deserialize args _, t : assert decoded && t == tokenStr && t != ""
+//@     after call encoder.ContinuationTokenSerializer.Deserialize returning u, t, e : desCalled = true ; desErr = e ; desFrom = u
+//@     before call storage.OpenFGADatastore.ReadPage | storage.RelationshipTupleReader.ReadPage args _, _, st, f, o : assert decoded && st == req.GetStoreId() && o.Consistency.Preference == req.GetConsistency() && o.Pagination.PageSize == (req.GetPageSize().GetValue() > 0 ? req.GetPageSize().GetValue() : storage.DefaultPageSize) && (tokenStr != "" ==> desCalled && desErr == nil && o.Pagination.From == desFrom) && (tokenStr == "" ==> o.Pagination.From == "") && (req.GetTupleKey() != nil ==> f.Object == req.GetTupleKey().GetObject() && f.Relation == req.GetTupleKey().GetRelation() && f.User == req.GetTupleKey().GetUser()) && (req.GetTupleKey() == nil ==> f.Object == "" && f.Relation == "" && f.User == "")
+//@     after call storage.OpenFGADatastore.ReadPage | storage.RelationshipTupleReader.ReadPage returning ts, u, e : paged = e == nil ; got = ts ; contUlid = u
+//@     before call encoder.ContinuationTokenSerializer.Serialize args _, u, t : assert paged && u == contUlid && t == ""
+//@     after call encoder.ContinuationTokenSerializer.Serialize returning b, e : serialized = e == nil ; serTok = bytes(b)
+//@     before call encoder.Encoder.Encode args _, b : assert serialized && bytes(b) == serTok
+//@     after call encoder.Encoder.Encode returning s, e : encoded = e == nil ; encodedTok = s
